@@ -19,7 +19,9 @@ class C03(C01):
           "then each init target's path entered in order; exactly these entry/init actions, no "
           "EXIT action at all, resting state = last init target. Half of the cases start the same chart object "
           "a second time at another state (the whole path is entered again); a quarter have init "
-          "actions that return no status (tolerated as 'no initial transition'). Non-trivial: depth(S) >= 2 or "
+          "actions that return no status (tolerated as 'no initial transition'); a quarter have entry actions that "
+          "build and start a second chart object of the same class while the first start is under way (each chart "
+          "enters exactly its own states). Non-trivial: depth(S) >= 2 or "
           "init chain >= 1; distinct = distinct (chart, start) digests.")
   assumptions = [
     "observes handler-side action logs and chart.state_name only",
@@ -37,8 +39,16 @@ class C03(C01):
       if t[4]:
         # init actions that return no status are tolerated as "no initial transition"
         case["spec"] = dict(case["spec"], initnone=[(t[2] + i) % 3 == 0 for i in range(n)])
+      if t[5]:
+        # entry actions that build and start a second chart object while this start is under way
+        acts = dict(case["spec"].get("acts") or {})
+        for i in range(n):
+          if case["spec"]["entry"][i] and (i + t[2]) % 2 == 0:
+            acts.setdefault("%d:ENTRY" % i, []).append(["start_other"])
+        case["spec"] = dict(case["spec"], acts=acts)
       return case
-    return st.tuples(base, hosts, st.integers(0, 50), st.booleans(), st.integers(0, 3).map(lambda x: x == 0)).map(finish)
+    return st.tuples(base, hosts, st.integers(0, 50), st.booleans(), st.integers(0, 3).map(lambda x: x == 0),
+                     st.integers(0, 3).map(lambda x: x == 0)).map(finish)
 
   def check(self, case, stats):
     case = dict(case, events=[])
@@ -54,6 +64,8 @@ class C03(C01):
       raise PropertyViolation(start.msg, "C03:" + start.aspect)
     if any(x[0] == "EXIT" for x in rt.log):
       raise PropertyViolation("start_at ran an exit action: %s" % (rt.log,), "C03:exit")
+    if rt.side_failures:
+      raise PropertyViolation(rt.side_failures[0], "C03:start")
     if case.get("restart") is not None and start.aspect is None:
       # the same chart object is started again: the whole path is entered again, outside-in
       from ..hsmcheck import structural, visible, fmt, name_of
